@@ -110,7 +110,7 @@ func (sc *Scenario) flowNodesCoq(x *ids) string {
 }
 
 // the previous result under the router's key (set by the pre node's set_run_result actions)
-func (sc *Scenario) prevResult() *ResultObs {
+func (sc *Scenario) prevResult(obs *Obs) *ResultObs {
 	if sc.ResultName == "" {
 		return nil
 	}
@@ -121,6 +121,10 @@ func (sc *Scenario) prevResult() *ResultObs {
 			prev = &ResultObs{Name: p.Name, Value: truncRunes(p.Value, sc.MaxResult), Category: p.Category}
 		}
 	}
+	if sc.SecondTimeout && len(obs.Timeouts) > 0 {
+		// the first timeout went through the same category and saved the time of the (then only) wait_timed_out event
+		prev = &ResultObs{Name: sc.ResultName, Value: truncRunes(obs.Timeouts[0], sc.MaxResult), Category: sc.firstCat(sc.Cats[sc.TimeoutCat].UUID).Name}
+	}
 	return prev
 }
 
@@ -128,11 +132,7 @@ func (sc *Scenario) prevResult() *ResultObs {
 func (sc *Scenario) caseCoqR(t *tables, obs *Obs) string {
 	x := &ids{m: map[string]int{}}
 	exits := hx.List(sc.Exits, func(e ExitDef) string {
-		d := ""
-		if e.Dest >= 0 {
-			d = nodeD(e.Dest)
-		}
-		return fmt.Sprintf("{| e_uuid := %s; e_dest := %s |}", hx.N(x.n(e.UUID)), hx.N(x.n(d)))
+		return fmt.Sprintf("{| e_uuid := %s; e_dest := %s |}", hx.N(x.n(e.UUID)), hx.N(x.n(sc.destUUID(e.Dest))))
 	})
 	router := "None"
 	if sc.Kind != "none" {
@@ -189,17 +189,10 @@ func (sc *Scenario) caseCoqR(t *tables, obs *Obs) string {
 		return fmt.Sprintf("(%s, %s, %s, %s)", hx.N(e.Test), hx.N(e.Operand), hx.List(e.Args, hx.N), e.Coq)
 	})
 	o := obs.R
-	timedOut := "T"
-	if sc.needsResume() && sc.Resume == "timeout" && o.Saved != nil {
-		// the value of a timeout result is the time of the timeout event: not compared
-		s := *o.Saved
-		s.Value = truncRunes(timedOut, sc.MaxResult)
-		o.Saved = &s
-	}
 	return fmt.Sprintf("{| rc_lc := %s; rc_max := %d%%nat;\n     rc_node := {| n_router := %s;\n       n_exits := %s |};\n     rc_flow_nodes := %s; rc_site := %s; rc_is_timeout := %s;\n"+
-		"     rc_draw := %s; rc_timed_out_on := %s; rc_prev := %s;\n     rc_evals := %s;\n     rc_texts := %s;\n     rc_registered := %s;\n     rc_tests := %s;\n     %s |}",
+		"     rc_draw := %s; rc_timeouts := %s; rc_prev := %s;\n     rc_evals := %s;\n     rc_texts := %s;\n     rc_registered := %s;\n     rc_tests := %s;\n     %s |}",
 		sc.lcCoq(), sc.MaxResult, router, exits, flowNodes, site, hx.Bool(sc.needsResume() && sc.Resume == "timeout"),
-		draw, coqStr(timedOut), resultCoq(sc.prevResult()), evals, texts, hx.List(regs, hx.N), tests, observedCoq(&o, x))
+		draw, hx.List(obs.Timeouts, coqStr), resultCoq(sc.prevResult(obs)), evals, texts, hx.List(regs, hx.N), tests, observedCoq(&o, x))
 }
 
 // case record for the pre node (no router; exercises the first-exit rule and the segment rule)
@@ -220,7 +213,7 @@ func (sc *Scenario) caseCoqP(obs *Obs) string {
 	// the events of the pre node's step are those of its actions, not of a router
 	o.Events = nil
 	return fmt.Sprintf("{| rc_lc := %s; rc_max := %d%%nat;\n     rc_node := {| n_router := None; n_exits := [%s] |};\n     rc_flow_nodes := %s; rc_site := AtVisit; rc_is_timeout := false;\n"+
-		"     rc_draw := {| d_mant := 0%%N; d_scale := 0%%N |}; rc_timed_out_on := []; rc_prev := None;\n     rc_evals := []; rc_texts := []; rc_registered := []; rc_tests := [];\n     %s |}",
+		"     rc_draw := {| d_mant := 0%%N; d_scale := 0%%N |}; rc_timeouts := []; rc_prev := None;\n     rc_evals := []; rc_texts := []; rc_registered := []; rc_tests := [];\n     %s |}",
 		sc.lcCoq(), sc.MaxResult, strings.Join(exits, "; "), flowNodes, observedCoq(&o, x))
 }
 
